@@ -46,4 +46,31 @@ Lemma src_tsub_assign_s t x : s_tsub_assign_s t x = Ok (tsub_assign_s t x). Proo
 Lemma src_tmul_assign_s t x : s_tmul_assign_s t x = Ok (tmul_assign_s t x). Proof. reflexivity. Qed.
 Lemma src_tdiv_assign_s t x : s_tdiv_assign_s t x = tdiv_assign_s t x. Proof. reflexivity. Qed.
 
+(* all of them at once: what a Props file pins as  model_is_source_<property>  *)
+Definition model_is_source_Tridiag : Prop :=
+  (forall sb mn sp, s_with_vectors sb mn sp = with_vectors sb mn sp) /\
+  (forall sb mn sp, s_with_vecs sb mn sp = with_vecs sb mn sp) /\
+  (forall n, @s_tnew A n = tnew n) /\
+  (forall x y z n, s_with_elements x y z n = with_elements x y z n) /\
+  (forall t n, s_tresize t n = tresize t n) /\
+  (forall t, s_ttranspose_in_place t = Ok (ttranspose_in_place t)) /\
+  (forall t, s_ttranspose t = Ok (ttranspose t)) /\
+  (forall t, s_tdet t = tdet t) /\
+  (forall t, s_tconvert t = tconvert t) /\
+  (forall t r, s_tsolve t r = tsolve t r) /\
+  (forall t v, s_tmul t v = tmul t v) /\
+  (forall t i j, s_tindex t (i, j) = tindex t i j) /\
+  (forall t, s_tneg t = Ok (tneg t)) /\
+  (forall a b, s_tadd a b = tadd a b) /\
+  (forall a b, s_tminus a b = tminus a b) /\
+  (forall t x, s_tscale t x = Ok (tscale t x)) /\
+  (forall x t, s_tscale_l x t = Ok (tscale_l x t)) /\
+  (forall t x, s_tdiv t x = tdiv t x) /\
+  (forall t x, s_tadd_assign_s t x = Ok (tadd_assign_s t x)) /\
+  (forall t x, s_tsub_assign_s t x = Ok (tsub_assign_s t x)) /\
+  (forall t x, s_tmul_assign_s t x = Ok (tmul_assign_s t x)) /\
+  (forall t x, s_tdiv_assign_s t x = tdiv_assign_s t x).
+Lemma model_is_source_Tridiag_lemma : model_is_source_Tridiag.
+Proof. exact (conj src_with_vectors (conj src_with_vecs (conj src_tnew (conj src_with_elements (conj src_tresize (conj src_ttranspose_in_place (conj src_ttranspose (conj src_tdet (conj src_tconvert (conj src_tsolve (conj src_tmul (conj src_tindex (conj src_tneg (conj src_tadd (conj src_tminus (conj src_tscale (conj src_tscale_l (conj src_tdiv (conj src_tadd_assign_s (conj src_tsub_assign_s (conj src_tmul_assign_s src_tdiv_assign_s))))))))))))))))))))). Qed.
+
 End SrcEqTridiag.
